@@ -181,3 +181,28 @@ package upstream
 //@   serves C16 C18
 //@   opt dyncall CancelFunc
 //@   ensures[cancelled] gCancelled
+
+// ---- router construction (C09) ---------------------------------------------------
+// Every route of the upstream port is registered behind the auth middleware built
+// from the configured verifier (router typestate of pkg/middleware/verif_contracts_router.go).
+
+//@ extern context.WithCancel
+//@   ensures[nonnil] result0 != nil && result1 != nil
+//@ extern context.Background
+//@   ensures[nonnil] result != nil
+
+//@ contract NewServer
+//@   serves C09
+//@   requires[fresh-step] gEngine == nil && !gOpenRoute && !gNoRoute && gAuthObj == nil
+//@   requires[env-logger] logger != nil
+//@   ensures[engine] gEngine != nil
+//@   ensures[routes-behind-auth] verifier != nil ==> !gOpenRoute
+//@   ensures[router-protected] verifier != nil ==> grpAuth[addr(gEngine.RouterGroup)]
+//@   ensures[configured-verifier] verifier != nil ==> gAuthObj != nil && gAuthObj.verifier == verifier
+//@   ensures[routes] gRoutes >= old(gRoutes) + 1
+
+//@ contract (*Status).Register
+//@   serves C09
+//@   opt implements github.com/andydunstall/piko/server/status.(Handler).Register
+//@   requires[group] group != nil
+//@   ensures[behind-group] grpAuth[group] && !old(gOpenRoute) ==> !gOpenRoute
